@@ -195,8 +195,11 @@ def step (st : St) (line : String) : St × List String :=
           let bf := match Order.lowerOrd List.reverse st.b with
             | .ok l' => l'.e2w.toList == l.e2w.toList && l'.ops.toList == l.ops.toList
             | .error _ => false
-          (st, [if Order.fusionInvariantOf l && same && bf then s!"c18inv ok {ncand}"
-                else s!"c18inv FAIL distinct={Order.fusionInvariantOf l} fuse-rev-same={same} backfill-rev-same={bf}"])
+          -- `adef`: the elementary hypothesis of `P3R.C18.compile_order_independent_total_partial`
+          -- (def-before-use of first add operands; implies `fusionInvariantOf`, `fusionInvariant_of_aDefined`)
+          let adef : Nat := if Order.aDefinedOf l then 1 else 0
+          (st, [if Order.fusionInvariantOf l && same && bf then s!"c18inv ok {ncand} adef={adef}"
+                else s!"c18inv FAIL distinct={Order.fusionInvariantOf l} fuse-rev-same={same} backfill-rev-same={bf} adef={adef}"])
       | "prep", [] =>
         match st.c with
         | none => (st, ["bad-op"])
